@@ -21,7 +21,12 @@ and `model_squash_eq_sequential_*` are the end-to-end statements: the sequential
 on one store from the empty store (`seqRun`) and the squash of **any cut** of the blocks into segments
 (`squashRun`: fresh partial store per segment, Reset between blocks, save + load, `Merge` in order) hold
 the same value for every key, for `set`, `set_if_not_exists`, `append`, `add`/`min`/`max` over int64 and
-bigint (byte-equal, hence typed-equal) and `set_sum` over int64 and bigint (equal after `stripTag`).
+bigint (byte-equal, hence typed-equal), `set_sum` over int64 and bigint (equal after `stripTag`),
+`add`/`min`/`max` over bigdecimal with operands of at most 34 decimals (equal typed value `typedDec34`;
+the codec round trip `codec_dec_roundtrip` is proved, not assumed) and `set_sum` over bigdecimal (equal as
+numbers).  Hypotheses: the calls are of the policy's kinds (plus `deletePrefix`), `set_sum` and bigdecimal
+operands are what the host interface produces, and both runs succeed (limits not hit).  float64 is left
+out (Lean's `Float` is opaque to the kernel).
 
 float64 `add`: IEEE-754 addition is not associative; `squash_eq_sequential_combine` applies to it only
 under the associativity hypothesis (`…_float_add_partial`), and the harness exhibits real triples where
@@ -388,6 +393,25 @@ theorem model_squash_eq_sequential_min_bigdecimal (cfg : Cfg) (hpol : cfg.policy
   obtain ⟨f, h1, h2⟩ := (refMinDec cfg hpol hvt).model_squash_eq_seq segs hk hF hG k
   exact typed_eq_of_repDec h1 h2
 
+/-- a `set_sum` bigdecimal operand: `"sum:"` or `"set:"` followed by a plain-notation decimal text -/
+def SetSumDecOperand (v : Bytes) : Prop :=
+  ∃ t, (∃ d, Dec.parse t = some d) ∧ (v = pfxSum ++ t ∨ v = pfxSet ++ t)
+
+/-- **`set_sum` over bigdecimal** (merge after the fix of F6: no truncation on this path, any number of
+decimals).  The two stores have the same keys, and for every key the tag-stripped texts (what the exported
+readers return) parse to decimals that are equal as numbers (`Dec.Eqv`: cross-multiplied equality). -/
+theorem model_squash_eq_sequential_set_sum_bigdecimal (cfg : Cfg) (hpol : cfg.policy = .setSum)
+    (hvt : cfg.vt = .bigdecimal) (segs : List (List (List Op)))
+    (hk : CallsAre (fun op => op.kind = .setSum .bigdecimal ∧ SetSumDecOperand op.val) segs) {F G : Store}
+    (hF : seqRun cfg (stdSem cfg) Store.empty segs.flatten = .ok F)
+    (hG : squashRun cfg (stdSem cfg) Store.empty segs = some G) :
+    ∀ k, (look F.kv k).isSome = (look G.kv k).isSome ∧
+      ∀ bF bG, stripTag cfg (look F.kv k) = some bF → stripTag cfg (look G.kv k) = some bG →
+        ∃ dF dG, Dec.parse bF = some dF ∧ Dec.parse bG = some dG ∧ dF.Eqv dG := by
+  intro k
+  obtain ⟨f, h1, h2⟩ := (refSetSumDec cfg hpol hvt).model_squash_eq_seq segs hk hF hG k
+  exact typed_eq_of_repDecQ hpol h1 h2
+
 /-! ### Non-vacuity of layer B: concrete histories on which both runs succeed -/
 
 def exCfg (p : Policy) (vt : VT) : Cfg := ⟨p, vt, 0, 1000000, 1000000⟩
@@ -446,6 +470,11 @@ example : CallsAre (fun op => op.kind = .sum .bigdecimal ∧ DecOperand op.val)
     first
       | exact Or.inl rfl
       | (refine Or.inr ⟨rfl, ?_⟩; dsimp only; exact hv _)
+
+example : exBoth (exCfg .setSum .bigdecimal)
+    (exSegs (.setSum .bigdecimal) (fun i => pfxSum ++ Dec.render ⟨i, 1⟩))
+    (some (pfxSum ++ Dec.render ⟨6, 1⟩)) (some (pfxSum ++ Dec.render ⟨-2, 1⟩)) = true := by
+  decide
 
 /-- `set_sum` operands: `set:2`, all others `sum:i` -/
 def exSSVal (i : Int) : Bytes := (if i = 2 then pfxSet else pfxSum) ++ renderInt i
